@@ -433,10 +433,10 @@ def check(run):
              "_op/_in_place_op call site binds against that signature", floor=150)
     run.rule("R01.7", "reduce_broadcast / grad_post_process_fn are linear (sum) maps of the gradient", floor=3)
     run.rule("R01.6", "ops overriding backward() either reach super().backward(grad) on all paths or serve every variable", floor=2)
-    r01_1(run)
-    r01_2(run)
-    r01_3_4(run)
-    r01_3b(run)
-    opcontract.r01_5(run)
-    r01_6(run)
-    r01_7(run)
+    run.do(r01_1)
+    run.do(r01_2)
+    run.do(r01_3_4)
+    run.do(r01_3b)
+    run.do(opcontract.r01_5)
+    run.do(r01_6)
+    run.do(r01_7)
